@@ -31,7 +31,7 @@ RULE = (
 )
 ASSUMPTIONS = [
     "the history used to locate the first crossing is the real test's history on the reference population (its correctness is C11/C12's business)",
-    "for super-majority (assorter bound != 1) the documentation does not pin the 'one-vote' value; only plurality-type assertions are judged in (c)",
+    "for super-majority (assorter bound u_a != 1) the one- and two-vote values are those of make_overstatement's documentation: overstatements of u_a/2 and u_a",
     "simulation estimates are judged only by the prefix-crossing clause and by range (the quantile convention is not part of the property)",
 ]
 REQUIRE_VAC = ["estimates_strictly_inside", "estimates_equal_N", "prefix_crossing_cases", "scripted_rng_runs", "polling_tallies", "interleave_cases", "contest_level_cases", "oneaudit_audit_level_cases", "audit_level_prefix_crossing_cases"]
@@ -138,10 +138,11 @@ def judge_sim(m, N, x, alpha, tails, reps, quantile, seed):
     return out, k
 
 
-def comparison_contest(N, k_win, audit_type, m, risk):
-    """N cards, k_win vote A, the rest vote B; margin = (2 k_win - N)/N"""
+def comparison_contest(N, k_win, audit_type, m, risk, share=None):
+    """N cards, k_win vote A, the rest vote B; margin = (2 k_win - N)/N (plurality; super-majority if a share is given)"""
     cvrs = [CVR(id=f"c{i}", votes={"con": {"A": True} if i < k_win else {"B": True}}, sample_num=i + 1) for i in range(N)]
-    con = Contest.from_dict({"id": "con", "name": "con", "risk_limit": risk, "cards": N, "choice_function": Contest.SOCIAL_CHOICE_FUNCTION.PLURALITY,
+    con = Contest.from_dict({"id": "con", "name": "con", "risk_limit": risk, "cards": N,
+                             "choice_function": Contest.SOCIAL_CHOICE_FUNCTION.SUPERMAJORITY if share else Contest.SOCIAL_CHOICE_FUNCTION.PLURALITY, "share_to_win": share,
                              "n_winners": 1, "candidates": ["A", "B"], "winner": ["A"], "audit_type": audit_type, "test": s1.TESTS[m[0]],
                              "estim": s1.ESTIMS[m[1]], "bet": s1.BETS[m[2]], "test_kwargs": {k: float(F(v)) if isinstance(v, str) else v for k, v in m[3].items()},
                              "g": 0.1, "use_style": True, "tally": {"A": k_win, "B": N - k_win}, "sample_size": None, "sample_threshold": None})
@@ -153,15 +154,19 @@ def comparison_contest(N, k_win, audit_type, m, risk):
     return con, asn, audit, cvrs
 
 
-def judge_comparison(m, N, k_win, r1, r2, alpha, audit_type):
-    con, asn, audit, cvrs = comparison_contest(N, k_win, audit_type, m, alpha)
+def judge_comparison(m, N, k_win, r1, r2, alpha, audit_type, share=None):
+    con, asn, audit, cvrs = comparison_contest(N, k_win, audit_type, m, alpha, share)
     with warnings.catch_warnings():
         warnings.simplefilter("ignore")
         asn.set_margin_from_cvrs(audit, cvrs)
         v = asn.margin
-        u_t = 2 / (2 - v)
-        big = 1 / (2 - v)
-        small = 0.5 / (2 - v)
+        if not (v > 0):
+            return [], None
+        ua = asn.assorter.upper_bound
+        # an overstatement of half / of the whole assorter bound (make_overstatement: "overs times the assorter upper bound")
+        u_t = 2 / (2 - v / ua)
+        big = 1 / (2 - v / ua)
+        small = 0.5 / (2 - v / ua)
         pop = [big] * N
         if r1:
             for i in range(0, N, math.floor(1 / r1)):
@@ -173,7 +178,7 @@ def judge_comparison(m, N, k_win, r1, r2, alpha, audit_type):
             got = asn.find_sample_size(data=None, rate_1=r1, rate_2=r2, reps=None)
         except Exception as e:  # noqa
             return [(f"C16|find_sample_size|{audit_type}|exception|{type(e).__name__}", f"{type(e).__name__}: {str(e)[:80]}")], None
-        twin = NonnegMean(test=con.test, estim=con.estim, bet=con.bet, u=u_t, N=N, t=1 / 2, g=con.g, **con.test_kwargs)
+        twin = NonnegMean(test=con.test, estim=con.estim, bet=con.bet, u=u_t, N=N, t=1 / 2, g=getattr(asn.test, "g", 0), **con.test_kwargs)  # padding as in the assertion's own test
         hist = twin.test(np.array(pop))[1]
     want = first_crossing(hist, alpha, N)
     out = []
@@ -553,16 +558,19 @@ def run_shard(sh, rec):
             rec.state()
             for r1, r2 in itertools.product((0, 0.25, 0.28, 0.3, 0.5, 0.6), repeat=2):
                 for alpha in ALPHAS:
-                    for at in (Audit.AUDIT_TYPE.CARD_COMPARISON, Audit.AUDIT_TYPE.ONEAUDIT):
-                        v, got = judge_comparison(m, N, k_win, r1, r2, alpha, at)
+                    for at, share in ((Audit.AUDIT_TYPE.CARD_COMPARISON, None), (Audit.AUDIT_TYPE.ONEAUDIT, None), (Audit.AUDIT_TYPE.CARD_COMPARISON, 2 / 3), (Audit.AUDIT_TYPE.CARD_COMPARISON, 1 / 3)):
+                        v, got = judge_comparison(m, N, k_win, r1, r2, alpha, at, share)
+                        if share:
+                            rec.vac("supermajority_comparison_estimates")
+                            v = [(k_ + "|supermajority", w_ + f" [share {share}]") for k_, w_ in v]
                         rec.trans()
                         rec.evals(2)
-                        rec.observe(("cmp", mi, N, k_win, r1, r2, alpha, at, got))
+                        rec.observe(("cmp", mi, N, k_win, r1, r2, alpha, at, share, got))
                         if got is not None and 1 < got < N:
                             rec.vac("estimates_strictly_inside")
                             rec.outcome(("cmp", mi, N, k_win, r1, r2, alpha, at))
                         for key, what in v:
-                            rec.violate(key, what, {"kind": "cmp", "m": mi, "N": N, "k_win": k_win, "r1": r1, "r2": r2, "alpha": alpha, "at": at})
+                            rec.violate(key, what, {"kind": "cmp", "m": mi, "N": N, "k_win": k_win, "r1": r1, "r2": r2, "alpha": alpha, "at": at, "share": share})
     elif kind == "oa":
         _, mi, N = sh
         m = METHODS[mi]
@@ -709,7 +717,8 @@ def run_case(case):
         tails = None if case["tails"] is None else [tuple(t) for t in case["tails"]]
         return judge_sim(METHODS[case["m"]], case["N"], case["x"], case["alpha"], tails, case["reps"], case["q"], case["seed"])[0]
     if k == "cmp":
-        return judge_comparison(METHODS[case["m"]], case["N"], case["k_win"], case["r1"], case["r2"], case["alpha"], case["at"])[0]
+        v = judge_comparison(METHODS[case["m"]], case["N"], case["k_win"], case["r1"], case["r2"], case["alpha"], case["at"], case.get("share"))[0]
+        return [(k_ + "|supermajority", w_) for k_, w_ in v] if case.get("share") else v
     if k == "oa":
         return judge_oneaudit_audit(METHODS[case["m"]], case["N"], case["k_win"], tuple(case["pooled"]), case["r1"], case["r2"], case["alpha"])[0]
     if k == "poll":
